@@ -15,7 +15,10 @@ ID = r"[A-Za-z_][A-Za-z_0-9]*"
 class Lines:
     """Cursor over the stripped, non-blank lines of a text."""
 
-    def __init__(self, text):
+    def __init__(self, text, comment=None):
+        # `comment`: the target's line-comment prefix.  A full-line comment that no template asks for is transparent:
+        # it cannot change what the program does, so it is neither residue nor a reason to lose the place.
+        self.comment = comment
         self.raw = text.split("\n")
         self.lines = []
         for no, l in enumerate(self.raw, 1):
@@ -32,20 +35,41 @@ class Lines:
         j = self.i + k
         return self.lines[j][1] if j < len(self.lines) else None
 
+    def is_comment(self, j):
+        return self.comment is not None and j < len(self.lines) and self.lines[j][1].startswith(self.comment)
+
+    def _match_at(self, j, patterns):
+        """-> (matches, position after) or None.  Comments carry no meaning: a comment line the templates do not ask
+        for is stepped over, and a template line that is only a comment (and captures nothing) may be absent."""
+        ms = []
+        k, pos = 0, j
+        while k < len(patterns):
+            l = self.lines[pos][1] if pos < len(self.lines) else None
+            p = patterns[k]
+            m = re.fullmatch(p, l) if l is not None else None
+            if m:
+                ms.append(m)
+                k += 1
+                pos += 1
+            elif l is not None and self.is_comment(pos):
+                pos += 1
+            elif self.comment is not None and p.startswith(self.comment) and "(" not in p.replace("\\(", ""):
+                ms.append(None)
+                k += 1
+            else:
+                return None
+        return ms, pos
+
     def match(self, *patterns):
         """Match consecutive lines against regexes (fullmatch).  Returns the list of match
         objects and advances, or None (no advance)."""
-        ms = []
-        for k, p in enumerate(patterns):
-            l = self.peek(k)
-            if l is None:
-                return None
-            m = re.fullmatch(p, l)
-            if not m:
-                return None
-            ms.append(m)
-        self.i += len(patterns)
-        return ms
+        r = self._match_at(self.i, patterns)
+        if r is None:
+            return None
+        if self.comment is not None and all(m is None for m in r[0]):
+            return None          # nothing but absent optional comments: not a match
+        self.i = r[1]
+        return r[0]
 
     def lit(self, *lits):
         for k, p in enumerate(lits):
@@ -59,7 +83,8 @@ class Lines:
             self.residue.append({"line": len(self.raw), "text": "<end of file>", "where": where})
             return
         no, s = self.lines[self.i]
-        self.residue.append({"line": no, "text": s, "where": where})
+        if not self.is_comment(self.i):
+            self.residue.append({"line": no, "text": s, "where": where})
         self.i += 1
 
 
